@@ -8,7 +8,7 @@
     correspondence check, not yet by a closed theorem: hence `_partial`. *)
 From Coq Require Import NArith List String Bool.
 From Coq Require Import Strings.Byte.
-From PDL Require Import Base.Bits Base.Outcome Lang.Ast Lang.Sexp Analyzer.Schema Sem.RefEncode Rust.Encode Proofs.Pack Proofs.BitfieldEncode.
+From PDL Require Import Base.Bits Base.Outcome Lang.Ast Lang.Sexp Analyzer.Schema Sem.RefEncode Rust.Encode Proofs.Pack Proofs.BitfieldEncode Proofs.SchemaEnums.
 Import ListNotations.
 Open Scope N_scope.
 
@@ -48,6 +48,23 @@ Theorem C03_bitfield_declarations_encode_as_reference :
     end.
 Proof. exact rust_encode_fragment. Qed.
 Print Assumptions C03_bitfield_declarations_encode_as_reference.
+
+(** The same with NOTHING assumed about the schema: [sch] is the one the model of
+    [Schema::new] computes for the file (Proofs/SchemaEnums.v: [mk_schema] records every
+    enum with its width, whatever the order and even with duplicate identifiers). *)
+Theorem C03_bitfield_declarations_encode_as_reference_real_schema :
+  forall (fuel : nat) (fl : file) (sch : schema) (id : string) (d : decl) (v : value) (bs : list byte),
+    enum_widths_fit fl = true -> Analyzer.Schema.mk_schema fl = Some sch ->
+    lookup_decl fl id = Some d ->
+    root_of_fragment fl d ->
+    ref_encode (S fuel) fl id v = Some bs ->
+    match rust_encode (S fuel) fl sch id v with
+    | Ok out => out = bs
+    | Panic GenAssert => True
+    | _ => False
+    end.
+Proof. exact rust_encode_fragment_real_schema. Qed.
+Print Assumptions C03_bitfield_declarations_encode_as_reference_real_schema.
 
 (** the model and the reference agree on a concrete mixed declaration (computed) *)
 Definition c03_file : file :=
